@@ -939,6 +939,9 @@ func (c *Ctx) RuleFlagsReject() *Result {
 		if viaCall != nil {
 			allInstrs(fn, func(in ssa.Instruction) {
 				if r, ok := in.(*ssa.Return); ok && !instrDominates(viaCall, r) && !c.Loud().BlockDies(r.Block()) {
+					if e := retErrOperand(r); e != nil && (errOperandAlwaysNonNil(e) || domFacts(r.Block())[e] == nonNil) {
+						return // a failing return hands out no included text
+					}
 					bad = fmt.Sprintf("the return at %s is not dominated by the flags check", c.P.InstrPos(r))
 				}
 			})
